@@ -85,3 +85,29 @@ Definition acl_of (W : world) (r : nat) : option acl :=
 (* the generator's output so far, or None once the fuel ran out (a __parent__ cycle: the real generator never ends) *)
 Definition ocons (x : nat) (o : option (list nat)) : option (list nat) :=
   match o with Some l => Some (x :: l) | None => None end.
+
+(* ---- the registry a request is decided in (pyramid/security.py routes, regenerated by translate_entry.py).
+   has_policy: a security policy is registered (the LegacySecurityPolicy over an authentication policy reporting the
+   principals [ps] and ACLAuthorizationPolicy); has_authz: an authorization policy is registered;
+   secured_view / plain_view: what adapters.lookup finds for the view name under ISecuredView (a secured view or a
+   MultiView) and under IView. *)
+Inductive sview :=
+| SOne (perm : text)                              (* viewderivers._secured_view: __permitted__ = policy.permits(request, context, perm) *)
+| SMulti (subs : list (bool * option text)).      (* MultiView: per sub-view (do its predicates hold?, its permission if secured) *)
+Record registry := mkReg { has_policy : bool; has_authz : bool; secured_view : option sview; plain_view : bool }.
+Inductive hp_result := ByPolicy (d : decision) | NoPolicyAllowed.
+Inductive vep_result := VDecision (d : decision) | VAllowedNoPermission | VTrue | VTypeError | VPredicateMismatch.
+
+(* view.__permitted__(context, request)  (shape-pinned: viewderivers._secured_view.permitted; MultiView.__permitted__ =
+   the first sub-view, in order, that has no predicates or whose predicates hold; its __permitted__ if it has one, else
+   True; PredicateMismatch when there is none) *)
+Definition view_permitted (perm_dec : text -> decision) (v : sview) : vep_result :=
+  match v with
+  | SOne perm => VDecision (perm_dec perm)
+  | SMulti subs =>
+      match find (fun s : bool * option text => fst s) subs with
+      | None => VPredicateMismatch
+      | Some (_, Some perm) => VDecision (perm_dec perm)
+      | Some (_, None) => VTrue
+      end
+  end.
